@@ -8,7 +8,7 @@ package recovery
 //@   property C10
 //@   safety C10
 //@   requires decryptHeader != nil && verifyHeader != nil
-//@   modifies *, indexWrites, ghosts(C04), ghosts(C08), ghosts(C09), ghosts(C14)
+//@   modifies *, indexWrites, ghosts(C04), ghosts(C08), ghosts(C09), ghosts(C14), ghosts(C07)
 //@   ensures [drive-unchanged] driveHeld == old(driveHeld)
 //@   property C04
 //@   requires [grid] reader.DriveIsRegular ==> pipes.RecordSize >= 1 && record >= 0 && block >= 0 && block < pipes.RecordSize
@@ -16,6 +16,8 @@ package recovery
 //@   at call indexHeader#1 assert [header-position] 512*(pipes.RecordSize*arg_record+arg_block) == hdrStart(arg_hdr) && 0 <= arg_block && arg_block < pipes.RecordSize
 //@   property C06
 //@   at call Seek#3 assert [resync-forward] arg_offset >= curr && arg_offset - curr < 512 && arg_offset % 512 == 0 && arg_whence == 0
+//@   property C07
+//@   at call PurgeAllHeaders#1 assert [no-purge-unless-overwrite] overwrite
 //@   property C08
 //@   maybe verifyHeader is HeaderVerifier|NoopVerifier
 //@   maybe decryptHeader is HeaderSubst|HeaderDecryptor
@@ -26,7 +28,7 @@ package recovery
 //@ func Query
 //@   property C10
 //@   safety C10
-//@   modifies *, ghosts(C04), ghosts(C08), ghosts(C09), ghosts(C14)
+//@   modifies *, ghosts(C04), ghosts(C08), ghosts(C09), ghosts(C14), ghosts(C07)
 //@   ensures [drive-unchanged] driveHeld == old(driveHeld)
 //@   property C04
 //@   requires [grid] reader.DriveIsRegular ==> pipes.RecordSize >= 1 && record >= 0 && block >= 0 && block < pipes.RecordSize
@@ -41,7 +43,7 @@ package recovery
 //@ func Fetch
 //@   property C10
 //@   safety C10
-//@   modifies *, ghosts(C04), ghosts(C08), ghosts(C09), ghosts(C14)
+//@   modifies *, ghosts(C04), ghosts(C08), ghosts(C09), ghosts(C14), ghosts(C07)
 //@   ensures [drive-unchanged] driveHeld == old(driveHeld)
 //@   property C04
 //@   at call Seek#1 assert [seek-target] arg_offset == 512*(pipes.RecordSize*record+block) && arg_whence == 0
@@ -52,7 +54,7 @@ package recovery
 //@ func indexHeader
 //@   property C10
 //@   safety C10
-//@   modifies *, indexWrites, hdrVerified[hdr], hdrSubstituted[hdr], hdrSealed[hdr], ghosts(C14)
+//@   modifies *, indexWrites, hdrVerified[hdr], hdrSubstituted[hdr], hdrSealed[hdr], ghosts(C14), ghosts(C07)
 //@   property C03
 //@   at call RemoveSuffix#1 assert [suffix-stripped-only-when-added] old(has(hdr.PAXRecords, "STFS.UncompressedSize")) && !old(has(hdr.PAXRecords, "STFS.ReplacesName")) && old(hdr.PAXRecords["STFS.ReplacesContent"]) != "false"
 //@   at call FileInfo#1 assert [stored-size-is-content-length] old(has(hdr.PAXRecords, "STFS.UncompressedSize")) ==> hdr.Size == atoiF(old(hdr.PAXRecords["STFS.UncompressedSize"]))
